@@ -6,6 +6,6 @@ exec 9>/tmp/r4.lock; flock 9
 for n in 1 2 3; do
   [ -f $wt/mutants/m$n.diff ] || { echo "$prop m$n: no diff"; continue; }
   echo "== $prop m$n: $(python3 -c "import json;print(json.load(open('$wt/mutants/m${n}_meta.json')).get('summary','')[:300])" 2>/dev/null)"
-  /verif/tools/try_mutant_wt.sh $wt $n $prop $tier 2>&1 | grep -v WARNING
+  timeout 900 /verif/tools/try_mutant_wt.sh $wt $n $prop $tier 2>&1 | grep -v WARNING
 done
 (cd /verif && /venv/bin/python -m harness.translate >/dev/null 2>&1)
